@@ -639,6 +639,14 @@ class Intervals:
         if op_ != ():
             return
         dc = self.du.single_def(ol)
+        if dc and dc[0] == "call" and names.call_is(dc[4], "Try::branch") and dc[4]["args"]:
+            # `s.first_chunk::<N>()?`: Continue (0) exactly when the chunk is there
+            pl_ = flow.op_place(dc[4]["args"][0])
+            dc = self.du.single_def(pl_[0]) if pl_ and pl_[1] == () else None
+            for _ in range(4):
+                if dc and dc[0] == "assign" and dc[4]["k"] == "use" and flow.op_place(dc[4]["op"]) and flow.op_place(dc[4]["op"])[1] == ():
+                    dc = self.du.single_def(flow.op_place(dc[4]["op"])[0])
+            value = 1 if value == 0 else 0
         if not (dc and dc[0] == "call" and names.call_is(dc[4], "slice::first_chunk", "slice::split_first_chunk", "slice::last_chunk", "slice::split_last_chunk")):
             return
         ga = [g.strip() for g in (dc[4].get("gargs") or [])]
